@@ -1001,6 +1001,9 @@ class CollapseCollector(WrappingCollector):
                     # the "least-best" document
                     # Tell the child collector to remove the document
                     child.remove(best.pop()[1])
+                    # The removed document was eliminated by collapsing too
+                    collapsed_counts[ckey] += 1
+                    self.collapsed_total += 1
                     add = True
 
                 if add:
